@@ -1,9 +1,65 @@
 import WzVerif.Driver.Proto
+import WzVerif.Model.LimitedStream
 namespace Wz.Driver.C09
-open Wz Wz.Proto
+open Wz Wz.Proto Wz.LS
 
-/-- stub: no model commands yet -/
+/-- `g3,e,r` / `[]` -/
+def parseScript (s : String) : Option (List Beh) :=
+  if s == "[]" then some [] else
+  (s.splitOn ",").mapM fun t =>
+    match t.toList with
+    | ['e'] => some Beh.eof
+    | ['r'] => some Beh.raise
+    | 'g' :: ds => (String.ofList ds).toNat?.map Beh.give
+    | _ => none
+
+def optNat (ds : List Char) : Option (Option Nat) :=
+  if ds.isEmpty then some none else (String.ofList ds).toNat?.map some
+
+/-- `r5` read(5), `a` read(), `l` readline(), `l3` readline(3), `L` readlines(), `L9` readlines(9),
+`i4` readinto(bytearray(4)), `n` next(), `x` exhaust() -/
+def parseOps (s : String) : Option (List Op) :=
+  if s == "[]" then some [] else
+  (s.splitOn ",").mapM fun t =>
+    match t.toList with
+    | ['a'] => some Op.readall
+    | ['n'] => some Op.next
+    | ['x'] => some Op.exhaust
+    | 'r' :: ds => (String.ofList ds).toNat?.map Op.read
+    | 'i' :: ds => (String.ofList ds).toNat?.map Op.readinto
+    | 'l' :: ds => (optNat ds).map Op.readline
+    | 'L' :: ds => (optNat ds).map Op.readlines
+    | _ => none
+
+def showRes : LRes → String
+  | .ok bs => "ok:" ++ ",".intercalate (bs.map hex)
+  | .error e => "EXC:" ++ e
+
+def showChoice : Choice → String
+  | .tooLarge => "EXC:RequestEntityTooLarge"
+  | .limited n m => "limited:" ++ toString n ++ ":" ++ outBool m
+  | .raw => "raw"
+  | .empty => "empty"
+
 def handle : Handler
+  | "ls.run", [data, script, limit, isMax, hasRi, ops] =>
+    match unhex data, parseScript script, natArg limit, boolArg isMax, boolArg hasRi, parseOps ops with
+    | some data, some script, some limit, some isMax, some hasRi, some ops =>
+      let s0 : St := { limit := limit, isMax := isMax, hasReadinto := hasRi, u := { data := data, script := script } }
+      let (rs, s) := runOps s0 ops
+      let log := s.u.log.reverse.map fun (c, n) => toString c ++ "+" ++ toString n
+      some (";".intercalate (rs.map showRes) ++ "|" ++ toString s.u.taken.length ++ "|" ++ toString s.pos
+        ++ "|" ++ ",".intercalate log)
+    | _, _, _, _, _, _ => some badArgs
+  | "ls.choice", [cl, chunked, term, max, safe] =>
+    match optArg unhexStr cl, boolArg chunked, boolArg term, optArg natArg max, boolArg safe with
+    | some cl, some chunked, some term, some max, some safe =>
+      some (showChoice (getInputStream cl chunked term max safe))
+    | _, _, _, _, _ => some badArgs
+  | "ls.clen", [cl, chunked] =>
+    match optArg unhexStr cl, boolArg chunked with
+    | some cl, some chunked => some (outOpt toString (getContentLength cl chunked))
+    | _, _ => some badArgs
   | _, _ => none
 
 end Wz.Driver.C09
